@@ -1663,6 +1663,8 @@ impl Matcher {
             }
         }
 
+        #[cfg(feature = "verif")]
+        crate::verif::gate_blocking("matcher.before_commit");
         tx.commit()?;
 
         trace!("committed!");
